@@ -58,10 +58,27 @@ def item():
                  decreases __ord.len() - __fk0,"""})
 
 
+C = "crates/compiler/src/typer/check.rs"
+UNK_RW = [
+    (re.compile(r"(\w+)\.keys\(\)\s*\.cloned\(\)\s*\.collect::<Vec<_>>\(\)"), r"\1.keys_vec()", "*"),
+    (re.compile(r"((?:\w+\.)*\w+(?:\(\))?)\.join\((\"[^\"]*\")\)"), r"join_strs(&\1, \2)", "*"),
+    (re.compile(r"\b(\w+)\.sort\(\);"), r"sort_strs(&mut \1);", "*"),
+    (re.compile(r'format!\(\s*"[^"]*unknown fields[^"]*",\s*name_display,\s*(\w+)\s*,?\s*\)', re.S), r"fmt_unknown(&name_display, &\1)", 1),
+]
+UNKNOWN = Fn(file=C, name="check_pat_constructor", container="Typer", drop_self_impl=True, rename="check_pat_unknown_fields", ret=None,
+             cut_from="if !field_map.is_empty() {", cut_before="self.push_constraint(Constraint::TypeEqual(ret_ty.clone(), ty.clone()));", cut_tail="",
+             sig="fn check_pat_unknown_fields(field_map: &HashMap<String, PatId>, diagnostics: &mut Diagnostics, name_display: String)",
+             obligation="the `unknown fields` diagnostic lists the leftover field names in an order that is a function of the names "
+                        "(not of the hash map's iteration order)",
+             rewrites=UNK_RW,
+             contract="""ensures field_map.key_set() =~= Set::<Seq<char>>::empty() ==> final(diagnostics)@ == old(diagnostics)@,
+            !(field_map.key_set() =~= Set::<Seq<char>>::empty()) ==> exists|sep: Seq<char>| final(diagnostics)@ == old(diagnostics)@.push(
+                unknown_text(name_display@, #[trigger] join_text(canonical(field_map.key_set()), sep))),""")
+
 UNIT = Unit(
     name="U-DIAGORD",
     properties=["C13"],
-    rules=["attrs", ("strip", "tast::"), ("strip", "env::")],
+    rules=["attrs", ("strip", "tast::"), ("strip", "env::"), ("strip", "super::util::")],
     describe="typer::toplevel::define_trait_impl, the part reporting unimplemented trait methods: the diagnostics are pushed in the trait's "
              "declaration order (a function of the program), one per declared method the impl lacks",
     trusted=["FRAGMENT: everything of define_trait_impl before the reporting loop (resolution, orphan rule, per-method checks) and the final "
@@ -73,4 +90,4 @@ UNIT = Unit(
         Adt(file="crates/compiler/src/env.rs", kw="struct", name="TraitDef", rules=["attrs"]),
     ],
 )
-UNIT.items = UNIT.items + [item()]
+UNIT.items = UNIT.items + [item(), UNKNOWN]
